@@ -712,6 +712,35 @@ func ruleR39(c *Ctx) *RuleResult {
 					}
 				}
 			}
+			// KEEPLINKS: the element being removed keeps its own next/prev: a cursor that stands on it (an iterator created
+			// before the removal) continues through them; cutting them makes its next step land on nil inside the range
+			for _, g := range gc.GCs {
+				dec := false
+				for _, ef := range g.Effects {
+					if storeToField(ef, "size") && ef.Args[0].Args[0].String() == "p:0" && ef.Args[1].Op == "-" {
+						dec = true
+					}
+				}
+				if !dec {
+					continue
+				}
+				src := map[string]bool{} // elements whose links are handed to their neighbours: the removed ones
+				for _, ef := range g.Effects {
+					if !isStore(ef) {
+						continue
+					}
+					v := ef.Args[1]
+					if v.Op == "load" && len(v.Args) == 1 && v.Args[0].Op == "fa" && (v.Args[0].Leaf == "next" || v.Args[0].Leaf == "prev") && len(v.Args[0].Args) == 1 {
+						src[noEpoch(v.Args[0].Args[0])] = true
+					}
+				}
+				for _, ef := range g.Effects {
+					if (storeToField(ef, "next") || storeToField(ef, "prev")) && ef.Args[1].String() == "#:nil" && src[noEpoch(ef.Args[0].Args[0])] && ef.Args[0].Args[0].Op != "new" {
+						n++
+						bad = append(bad, fmt.Sprintf("the removed element's own %s link is cut (%s): an iterator standing on that element continues through it", ef.Args[0].Leaf, trunc(noEpoch(ef), 120)))
+					}
+				}
+			}
 			// TAILNIL: a fresh element that becomes the tail (last = n) while its next points at the current head
 			// (n.next = first) is right only when the list is empty *now* — the path must know that from a size / end test of
 			// the current round, not from one taken before the loop
